@@ -777,7 +777,23 @@ def rule_propagation(model):
                     if isinstance(m, ast.Assign) and \
                             isinstance(m.targets[0], ast.Attribute) and \
                             norm(m.targets[0].value) == var:
-                        got.add(m.targets[0].attr)
+                        at = m.targets[0].attr
+                        v_ = m.value
+                        # the guard is read the way attributes are looked
+                        # up (instance, then class): X.<guard> or
+                        # getattr(X, '<guard>'...) -- not from an instance
+                        # dictionary, which misses class-level guards
+                        proper = at not in ('guarded_getattr',
+                                            'guarded_getitem') or (
+                            isinstance(v_, ast.Attribute) and v_.attr == at
+                        ) or (isinstance(v_, ast.Call) and isinstance(
+                            v_.func, ast.Name) and v_.func.id == 'getattr'
+                            and len(v_.args) >= 2 and isinstance(
+                                v_.args[1], ast.Constant) and
+                            v_.args[1].value == at) or isinstance(
+                                v_, ast.Name)
+                        if proper:
+                            got.add(at)
                     # for name in ('guarded_getattr', ...):
                     #     setattr(var, name, getattr(outer, name))
                     if isinstance(m, ast.Call) and \
@@ -963,9 +979,9 @@ def rule_guard_owner(model):
                           'overwritten (an unrestricted sub-template '
                           'switches the guards off for the rest of the '
                           'restricted rendering)', node=node, ctx=fi)
-    if n < 3:
+    if n < 2:
         raise AnalysisError(f'C05.R6: only {n} guard installations found')
-    r.floor = 3
+    r.floor = 2
     return r
 
 
